@@ -1,64 +1,37 @@
-// PROBE: appended to congestion/cubic.rs; cbrt is an unsupported FFI call (needs stub), on_ack with symbolic Instant/Duration did not finish in 900 s
+// PROBE (design phase, not framework code): harness module appended to quinn-proto/src/congestion/cubic.rs in a scratch copy; results in DESIGN.md appendix A
 #[cfg(kani)]
 mod verif_kani {
     use super::*;
     #[repr(C)]
     struct RawTs { secs: i64, nanos: u32 }
-    pub(crate) fn any_instant() -> Instant {
-        let secs: i64 = kani::any();
-        let nanos: u32 = kani::any();
-        kani::assume(secs >= 0 && secs < (1i64 << 40) && nanos < 1_000_000_000);
-        unsafe { std::mem::transmute::<RawTs, Instant>(RawTs { secs, nanos }) }
-    }
-    fn any_duration() -> Duration {
-        let secs: u64 = kani::any();
-        let nanos: u32 = kani::any();
-        kani::assume(secs < (1u64 << 40) && nanos < 1_000_000_000);
-        Duration::new(secs, nanos)
-    }
-    #[kani::proof]
-    fn instant_model_sane() {
-        let a = any_instant();
-        let d = any_duration();
-        let b = a + d;
-        assert!(b >= a);
-        assert!(b - a == d);
-    }
+    fn inst(secs: i64) -> Instant { unsafe { std::mem::transmute::<RawTs, Instant>(RawTs { secs, nanos: 0 }) } }
+    fn any_inst() -> Instant { let s: u16 = kani::any(); inst(1000 + s as i64) }
+    fn stub_k(_s: &State, _m: u64) -> f64 { let k: f64 = kani::any(); kani::assume(k.is_finite() && k >= 0.0); k }
     fn any_cubic() -> Cubic {
-        let mtu: u16 = kani::any();
-        kani::assume(mtu >= 1200);
-        let mut c = Cubic::new(Arc::new(CubicConfig::default()), any_instant(), mtu);
-        c.state.window = kani::any();
-        c.state.ssthresh = kani::any();
-        c.state.cwnd_inc = kani::any();
-        c.state.w_max = kani::any();
-        c.state.k = kani::any();
-        c.state.recovery_start_time = if kani::any() { Some(any_instant()) } else { None };
-        kani::assume(c.state.window >= c.minimum_window() && c.state.window < (1u64 << 62));
-        kani::assume(c.state.w_max.is_finite() && c.state.w_max >= 0.0 && c.state.k.is_finite());
+        let mtu: u16 = kani::any(); kani::assume(mtu >= 1200);
+        let mut c = Cubic::new(Arc::new(CubicConfig::default()), inst(1000), mtu);
+        c.state.window = kani::any(); c.state.ssthresh = kani::any(); c.state.cwnd_inc = kani::any();
+        c.state.w_max = kani::any(); c.state.k = kani::any();
+        c.state.recovery_start_time = if kani::any() { Some(any_inst()) } else { None };
+        kani::assume(c.state.window >= c.minimum_window() && c.state.window < (1u64 << 40) && c.state.cwnd_inc < (1u64 << 40));
+        kani::assume(c.state.w_max.is_finite() && c.state.w_max >= 0.0 && c.state.w_max < 1e15 && c.state.k.is_finite() && c.state.k >= 0.0 && c.state.k < 1e6);
         c
     }
     #[kani::proof]
+    #[kani::stub(State::cubic_k, stub_k)]
     fn cubic_congestion_event_keeps_min_window() {
         let mut c = any_cubic();
-        c.on_congestion_event(any_instant(), any_instant(), kani::any(), kani::any(), kani::any());
+        c.on_congestion_event(any_inst(), any_inst(), kani::any(), kani::any(), kani::any());
         assert!(c.window() >= 2 * c.current_mtu);
+        assert!(c.state.ssthresh >= 2 * c.current_mtu);
     }
     #[kani::proof]
-    fn cubic_mtu_update_keeps_min_window() {
+    fn cubic_on_ack_monotone() {
         let mut c = any_cubic();
-        let m: u16 = kani::any();
-        c.on_mtu_update(m);
-        assert!(c.window() >= 2 * (m as u64));
-    }
-    #[kani::proof]
-    fn cubic_on_ack_keeps_min_window() {
-        let mut c = any_cubic();
-        let bytes: u64 = kani::any();
-        kani::assume(bytes < (1u64 << 32));
-        let rtt = RttEstimator::new(any_duration());
+        let bytes: u64 = kani::any(); kani::assume(bytes < (1u64 << 32));
+        let rtt = RttEstimator::new(Duration::from_millis(1 + kani::any::<u8>() as u64));
         let w0 = c.window();
-        c.on_ack(any_instant(), any_instant(), bytes, kani::any(), &rtt);
+        c.on_ack(any_inst(), any_inst(), bytes, kani::any(), &rtt);
         assert!(c.window() >= w0);
     }
 }
